@@ -1,2 +1,81 @@
-(** placeholder until the proofs land *)
-From RS Require Import Base.Bytes.
+(** C08 -- the compiler is total and fail-safe: success, or a diagnostic, never a panic.
+    Pinned statements only; proofs are in Proofs/C08, Proofs/C09, Proofs/C10, Proofs/C11. *)
+From RS Require Import Base.Bytes Base.Outcome Base.Utf8 Bind.Types Bind.Binder Bind.BindSpec Bind.Handover
+  Lex.Tokens Lex.Scanner Parse.Automaton Interp.Val Interp.Ast Interp.Eval Interp.Cli Interp.Run Lib.LibBase Lib.StdLib.
+From RS Require Import Proofs.C08.Handover Proofs.C08.HandoverInstance Proofs.C08.FrontEnd
+  Proofs.C09.Invariant Proofs.C10.Final Proofs.C11.CatalogueWf Proofs.C11.Corollaries.
+From RSGen Require Import Catalogue ExecScripts.
+
+(** the lexer is total on every line of valid UTF-8 (invalid UTF-8 never reaches it: BufRead::lines
+    reports it): tokens or a lex error, never a panic, never out of fuel *)
+Theorem C08_lex_total : forall lx lno line, utf8_valid line = true ->
+  (exists toks, snd (lex_line lx lno line) = Ok toks) \/ snd (lex_line lx lno line) = Err ELex.
+Proof. exact lex_total_final. Qed.
+
+(** what the lexer hands to the parser always satisfies what the parser relies on
+    (TokType::get_val unwraps, the "0x" prefix of a hex literal) *)
+Theorem C08_lexer_tokens_ok : forall lx lno line lx' toks, utf8_valid line = true ->
+  lex_line lx lno line = (lx', Ok toks) -> Forall (fun t => tok_ok t = true) toks.
+Proof. exact lexer_tokens_ok. Qed.
+
+(** on such tokens the parser, from any state it can reach, moves to a reachable state or reports a
+    parse error; its stack pops, unwraps and unreachable!() arms cannot fire and its loop finishes *)
+Theorem C08_parser_total : forall p t, pinv p -> tok_ok t = true ->
+  match feed p t with Ok p' => pinv p' | Err e => e = EParse | Panic _ | OutOfFuel => False end.
+Proof. exact feed_inv. Qed.
+
+(** the argument binder, on every function of the catalogue and every call shape (missing,
+    surplus, duplicated, unknown, misordered arguments of any value types): a binding or a type error *)
+Theorem C08_binder_total :
+  forall (V : Type) (type_of : V -> vtype) (of_valdef : valdef -> V) (f : funcdef), In f catalogue ->
+  forall call, argvec V type_of of_valdef f call = Err EType
+               \/ exists slots extra, argvec V type_of of_valdef f call = Ok (slots, extra).
+Proof.
+  intros V type_of of_valdef f Hin. apply never_panics.
+  pose proof catalogue_wf as W. rewrite forallb_forall in W. exact (W f Hin).
+Qed.
+
+(** every library function body, as read off the running code (gen/ExecScripts.v), takes the
+    arguments the binder hands over without an unwrap on None, an unreachable!() conversion or a
+    Drop-for-Args assertion, on every accepted call and every early-return path *)
+Theorem C08_handover_safe :
+  forall f m s,
+  In f catalogue -> assoc (fd_key f) exec_scripts = Some (m, s) ->
+  forall (V : Type) (type_of : V -> vtype) (of_valdef : valdef -> V) call slots extra early,
+  argvec V type_of of_valdef f call = Ok (slots, extra) ->
+  run_script s early (initial_state f m (map type_of slots) (map type_of extra)) = Ok tt.
+Proof.
+  intros f m s Hin Hs V type_of of_valdef call slots extra early H.
+  exact (handover_safe_catalogue f m s Hin Hs eq_refl V type_of of_valdef call slots extra early H).
+Qed.
+
+(** ... and every function of the catalogue has such a script *)
+Theorem C08_handover_covers_catalogue :
+  forallb (fun f => match assoc (fd_key f) exec_scripts with Some _ => true | None => false end) catalogue = true.
+Proof. vm_compute. reflexivity. Qed.
+
+(** whole pipeline, any bytes as source, any library: lexing, parsing and the glue of process_file
+    contribute no panic and no non-termination; a panic can only come out of executing a statement *)
+Theorem C08_front_end_never_panics :
+  forall functions classes modules exec src s,
+  process_file functions classes modules exec src = CliPanic s ->
+  exists p ss p', add_stmts functions classes modules exec p ss = RPanic s p'.
+Proof. exact front_end_never_panics. Qed.
+
+(** the same for the concrete library *)
+Theorem C08_pipeline_panic_only_from_execution : forall files src s,
+  run_src files src = RunPanic s ->
+  exists p ss p', add_stmts catalogue class_table module_table (exec {| env_files := files |}) p ss = RPanic s p'.
+Proof.
+  intros files src s H. unfold run_src in H.
+  destruct (process_file catalogue class_table module_table (exec {| env_files := files |}) src) as [p|e l p|s'] eqn:E;
+    try discriminate H.
+  inversion H; subst. exact (front_end_never_panics _ _ _ _ _ _ E).
+Qed.
+
+(** non-vacuity: garbage bytes give a diagnostic with a position, a valid program gives a pcap *)
+Example C08_nonvacuous :
+  (match run_src [] (bytes_of_string "let x = $;") with RunErr ELex (1, 9) _ => True | _ => False end)
+  /\ (match run_src [] (bytes_of_string "import ipv4; ipv4::udp::unicast(1.2.3.4:1, 1.2.3.5:2, ""x"");") with
+      | RunOk pcap _ _ => len pcap = 24 + 16 + 43 | _ => False end).
+Proof. split; vm_compute; [exact I | reflexivity]. Qed.
